@@ -5,15 +5,15 @@ import PenneModel.Types.ValueType
 -/
 namespace Types
 
-/-- operand types as the resolver distinguishes them: the thirteen primitives, any pointer, anything else -/
+/-- operand types as the resolver distinguishes them: the thirteen primitives, pointers (compared with their full
+    pointee type: `&i32` and `&u32` are different types), anything else -/
 inductive OT where
   | prim (p : Prim)
-  | pointer
+  | pointer (pointee : OT)
   | other            -- arrays, slices, structures, words, views
   deriving DecidableEq, Repr
 
 def allPrims : List Prim := [.i8, .i16, .i32, .i64, .i128, .u8, .u16, .u32, .u64, .u128, .usize, .char8, .bool]
-def allOTs : List OT := allPrims.map .prim ++ [.pointer, .other]
 
 def isIntegral : Prim → Bool
   | .char8 | .bool => false
@@ -41,7 +41,7 @@ def validFor (op : Op) (t : OT) : Bool :=
   | .add, .prim p | .sub, .prim p | .mul, .prim p | .div, .prim p | .mod, .prim p => isIntegral p || p == .char8
   | .band, .prim p | .bor, .prim p | .bxor, .prim p | .shl, .prim p | .shr, .prim p => isFixedUnsigned p
   | .eq, .prim _ | .ne, .prim _ => true
-  | .eq, .pointer | .ne, .pointer => true
+  | .eq, .pointer _ | .ne, .pointer _ => true
   | .lt, .prim _ | .le, .prim _ | .gt, .prim _ | .ge, .prim _ => true
   | .neg, .prim p => isSignedP p
   | .compl, .prim p => isFixedUnsigned p || p == .bool
